@@ -990,6 +990,12 @@ type loopModSet struct {
 	heapKind map[string]bool       // heap names havocked entirely
 	bases    map[string][]ast.Expr // heap name -> expressions whose base is written
 	globals  bool
+	mapObjs  []mapWrite
+}
+
+type mapWrite struct {
+	tag string
+	e   ast.Expr
 }
 
 func (v *Verifier) loopMods(lp *loopParts) *loopModSet {
@@ -1066,8 +1072,7 @@ func (v *Verifier) markWrite(ms *loopModSet, e ast.Expr) {
 			mt := u
 			ks, vs := v.sortOf(mt.Key()), v.sortOf(mt.Elem())
 			tag := sortTag(ks) + "_" + sortTag(vs)
-			ms.heapKind["Mh_"+tag] = true
-			ms.heapKind["Mv_"+tag] = true
+			ms.mapObjs = append(ms.mapObjs, mapWrite{tag, x.X})
 		default:
 			ms.heapAll = true
 		}
@@ -1171,6 +1176,23 @@ func (v *Verifier) havocLoop(h *State, before *State, ms *loopModSet, lp *loopPa
 				h.heaps[name] = v.fresh(name, h.heaps[name].Sort)
 			}
 		}
+	}
+	for _, mw := range ms.mapObjs {
+		hn, vn := "Mh_"+mw.tag, "Mv_"+mw.tag
+		if ms.heapKind[hn] {
+			continue
+		}
+		ref, ok := v.stableValue(before, mw.e, ms)
+		hh, okh := h.heaps[hn]
+		hv, okv := h.heaps[vn]
+		if !ok || !okh || !okv {
+			ms.heapKind[hn], ms.heapKind[vn] = true, true
+			continue
+		}
+		_, inh, _ := arrSorts(hh.Sort)
+		_, inv, _ := arrSorts(hv.Sort)
+		h.heaps[hn] = Store(hh, ref, v.fresh("mh", inh))
+		h.heaps[vn] = Store(hv, ref, v.fresh("mv", inv))
 	}
 	for name := range ms.heapKind {
 		if i := indexByte(name, '#'); i >= 0 {
@@ -1323,4 +1345,38 @@ func (v *Verifier) havocAll(s *State) {
 		s.ghost[name] = v.fresh("ghost."+name, SInt)
 	}
 	v.bumpAlloc(s)
+}
+
+// stableValue evaluates e at loop entry if its value cannot change inside the
+// loop: identifiers not assigned in the loop, and fields (through such
+// identifiers) whose field heap the loop does not write.
+func (v *Verifier) stableValue(before *State, e ast.Expr, ms *loopModSet) (*Term, bool) {
+	var stable func(e ast.Expr) bool
+	stable = func(e ast.Expr) bool {
+		switch x := ast.Unparen(e).(type) {
+		case *ast.Ident:
+			o, ok := v.info.ObjectOf(x).(*types.Var)
+			return ok && !ms.vars[o] && !v.boxed[o]
+		case *ast.SelectorExpr:
+			sel := v.info.Selections[x]
+			if sel == nil || sel.Kind() != types.FieldVal || len(sel.Index()) != 1 || ms.heapAll {
+				return false
+			}
+			st, _ := derefType(sel.Recv())
+			if ms.heapKind[v.heapName("F", structTypeName(st), x.Sel.Name)] {
+				return false
+			}
+			return stable(x.X)
+		}
+		return false
+	}
+	if !stable(e) {
+		return nil, false
+	}
+	tmp := before.clone()
+	save := v.obligeHook
+	v.obligeHook = func(*State, *Term) {}
+	val := v.eval(tmp, e)
+	v.obligeHook = save
+	return val, true
 }
